@@ -17,11 +17,11 @@
    cancel semantics (wk = outcome of the awaited future, mc = Task._must_cancel), the
    asyncio.timeout() context (tmo, timers), virtual integer time `now`.
 
-   Tasks  "R" receiver: calls receive() NRecv times,  "C" closer: close() once,
-          "S" sender: send_str() once.  pc locations are named after the awaits:
+   Tasks  "R" receiver: calls receive() NRecv times,  "C" closer: close() once ("D" a second
+          closer),  "S" sender: send_str() once.  pc locations are named after the awaits:
           r.* receive(), c.* server close(), k.* client close().
    Ready entries: task names, "io:<frame>" (data_received), "lost" (connection_lost),
-          "tmoR"/"tmoC" (Timeout._on_timeout), "hb" (_send_heartbeat), "pong"
+          "tmoR"/"tmoC"/"tmoD" (Timeout._on_timeout), "hb" (_send_heartbeat), "pong"
           (_pong_not_received), "hbflush" (_flush_heartbeat_reset).
 
    Differences of the two classes are explicit IF Side = ... disjuncts.
@@ -47,11 +47,11 @@ VARIABLE s
 PeerCode == 4001        \* close code the scripted peer uses
 ErrCode  == 1002        \* WebSocketError.code of the protocol error the peer can provoke
 NotIn    == 99
-Tasks    == {"R", "C", "S"}
+Tasks    == {"R", "C", "D", "S"}
 Mark     == "|"
 
-TmoId(t) == CASE t = "R" -> "tmoR" [] t = "C" -> "tmoC" [] OTHER -> "tmoS"
-TmoTask(e) == CASE e = "tmoR" -> "R" [] e = "tmoC" -> "C" [] OTHER -> "S"
+TmoId(t) == CASE t = "R" -> "tmoR" [] t = "C" -> "tmoC" [] t = "D" -> "tmoD" [] OTHER -> "tmoS"
+TmoTask(e) == CASE e = "tmoR" -> "R" [] e = "tmoC" -> "C" [] e = "tmoD" -> "D" [] OTHER -> "S"
 IoEntry(f) == CASE f = "data" -> "io:data" [] f = "ping" -> "io:ping" [] f = "pong" -> "io:pong"
                 [] f = "close" -> "io:close" [] OTHER -> "io:bad"
 IoFrameOf(e) == CASE e = "io:data" -> "data" [] e = "io:ping" -> "ping" [] e = "io:pong" -> "pong"
@@ -312,7 +312,7 @@ Wake(st0, t, o) ==
   IN
   CASE st.pc[t] = "spawned" ->
          IF o = "cancel" THEN [st EXCEPT !.pc[t] = "done", !.cpu = "none"]     \* the coroutine never starts
-         ELSE [st EXCEPT !.pc[t] = CASE t = "R" -> "r.top" [] t = "C" -> CloseEntry [] OTHER -> "s.top"]
+         ELSE [st EXCEPT !.pc[t] = CASE t = "R" -> "r.top" [] t \in {"C", "D"} -> CloseEntry [] OTHER -> "s.top"]
     [] st.pc[t] = "r.read" ->
          CASE o = "ok" -> [st EXCEPT !.pc[t] = "r.got"]
            [] o = "cancel" -> RExc(Why(dropW, IF isTmo THEN "timeout" ELSE "cancel"), t, IF isTmo THEN "timeout" ELSE "cancelled")
@@ -394,14 +394,14 @@ RunEntry(st, e) ==
   CASE e \in Tasks -> RunTask(st, e)
     [] e \in IoEntries -> IoFrame(st, IoFrameOf(e))
     [] e = "lost" -> Lost(st)
-    [] e \in {"tmoR", "tmoC", "tmoS"} -> OnTimeout(st, TmoTask(e))
+    [] e \in {"tmoR", "tmoC", "tmoD", "tmoS"} -> OnTimeout(st, TmoTask(e))
     [] e = "hb" -> SendHeartbeat(st)
     [] e = "pong" -> PongNotReceived(st)
     [] OTHER -> FlushReset(st)
 
 (* ------------------------------------------------------------ actions *)
 AtBoundary == Head(s.ready) = Mark
-Entries == Tasks \cup Stimuli \cup {"tmoR", "tmoC", "tmoS", "hb", "pong", "hbflush"}
+Entries == Tasks \cup Stimuli \cup {"tmoR", "tmoC", "tmoD", "tmoS", "hb", "pong", "hbflush"}
 
 \* one loop step: run the head handle (starting a new _run_once iteration if the marker is at the head)
 Step(e) ==
